@@ -34,6 +34,55 @@ def _always_exits(block) -> bool:
     return False
 
 
+def loop_body_form(stmts):
+    """In a loop body a trailing `continue` is implied, and `if c: A; continue` followed by a REST that always leaves the
+    iteration is `if not c: REST` followed by A: the spelling that keeps the function-leaving branch as the guard."""
+    out = list(stmts)
+    changed = True
+    while changed:
+        changed = False
+        if out and isinstance(out[-1], ast.Continue) and len(out) > 1:
+            out = out[:-1]
+            changed = True
+        for i, s in enumerate(out):
+            if isinstance(s, ast.If) and not s.orelse and s.body and isinstance(s.body[-1], ast.Continue) and i + 1 < len(out) and _always_exits(out[i + 1:]) \
+                    and not any(isinstance(x, ast.Continue) for b in s.body[:-1] for x in ast.walk(b)):
+                neg = ast.copy_location(ast.UnaryOp(op=ast.Not(), operand=s.test), s.test)
+                neg = Canon().visit_UnaryOp(neg, descend=False)
+                rest = out[i + 1:]
+                body = s.body[:-1]
+                s.test, s.body = neg, rest
+                out = out[:i] + [s] + body
+                changed = True
+                break
+    return out
+
+
+def _boolean_valued(e) -> bool:
+    if isinstance(e, ast.Compare):
+        return True
+    if isinstance(e, ast.UnaryOp) and isinstance(e.op, ast.Not):
+        return True
+    if isinstance(e, ast.BoolOp):
+        return all(_boolean_valued(v) for v in e.values)
+    return isinstance(e, ast.Constant) and isinstance(e.value, bool)
+
+
+def bool_return_form(stmts):
+    """`if c: return True` followed by `return False` is `return c` when c is boolean-valued (and the mirrored form)."""
+    if len(stmts) >= 2 and isinstance(stmts[-2], ast.If) and not stmts[-2].orelse and len(stmts[-2].body) == 1 and isinstance(stmts[-2].body[0], ast.Return) \
+            and isinstance(stmts[-1], ast.Return):
+        a, b = stmts[-2].body[0].value, stmts[-1].value
+        t = stmts[-2].test
+        if isinstance(a, ast.Constant) and isinstance(b, ast.Constant) and isinstance(a.value, bool) and isinstance(b.value, bool) and a.value != b.value and _boolean_valued(t):
+            if a.value:
+                val = t
+            else:
+                val = Canon().visit_UnaryOp(ast.copy_location(ast.UnaryOp(op=ast.Not(), operand=t), t), descend=False)
+            return stmts[:-2] + [ast.copy_location(ast.Return(value=val), stmts[-2])]
+    return stmts
+
+
 def guard_form(stmts):
     """if c: A else: B, where one branch always leaves (return / raise / break / continue), is the guard clause
     `if <leaving condition>: <leaving branch>` followed by the other branch: one spelling for
@@ -58,6 +107,44 @@ def guard_form(stmts):
                 continue
         out.append(s)
     return out
+
+
+def _is_len(e):
+    return isinstance(e, ast.Call) and isinstance(e.func, ast.Name) and e.func.id == "len" and len(e.args) == 1 and not e.keywords
+
+
+def _const(e, v):
+    return isinstance(e, ast.Constant) and type(e.value) is int and e.value == v
+
+
+def truth_form(t):
+    """In a boolean context `len(X) > 0`, `len(X) >= 1`, `len(X) != 0` are `X`, and `len(X) == 0`, `len(X) < 1` are `not X`
+    (sized containers).  Applied to the tests of if / while / conditional expressions / comprehension filters and to
+    the operands of not / and / or."""
+    if isinstance(t, ast.BoolOp):
+        t.values = [truth_form(v) for v in t.values]
+        return t
+    if isinstance(t, ast.UnaryOp) and isinstance(t.op, ast.Not):
+        t.operand = truth_form(t.operand)
+        return t
+    if isinstance(t, ast.Compare) and len(t.ops) == 1:
+        l, op, r = t.left, t.ops[0], t.comparators[0]
+        pos = neg = None
+        if _is_len(l):
+            if (isinstance(op, ast.Gt) and _const(r, 0)) or (isinstance(op, ast.GtE) and _const(r, 1)) or (isinstance(op, ast.NotEq) and _const(r, 0)):
+                pos = l.args[0]
+            if (isinstance(op, ast.Eq) and _const(r, 0)) or (isinstance(op, ast.Lt) and _const(r, 1)) or (isinstance(op, ast.LtE) and _const(r, 0)):
+                neg = l.args[0]
+        if _is_len(r):
+            if (isinstance(op, ast.Lt) and _const(l, 0)) or (isinstance(op, ast.LtE) and _const(l, 1)) or (isinstance(op, ast.NotEq) and _const(l, 0)):
+                pos = r.args[0]
+            if (isinstance(op, ast.Eq) and _const(l, 0)) or (isinstance(op, ast.Gt) and _const(l, 1)) or (isinstance(op, ast.GtE) and _const(l, 0)):
+                neg = r.args[0]
+        if pos is not None:
+            return pos
+        if neg is not None:
+            return ast.copy_location(ast.UnaryOp(op=ast.Not(), operand=neg), t)
+    return t
 
 
 class Canon(ast.NodeTransformer):
@@ -97,7 +184,10 @@ class Canon(ast.NodeTransformer):
         for fld in ("body", "orelse", "finalbody"):
             lst = getattr(node, fld, None)
             if isinstance(lst, list) and lst and isinstance(lst[0], ast.stmt):
-                setattr(node, fld, guard_form(lst))
+                lst = bool_return_form(guard_form(lst))
+                if fld == "body" and isinstance(node, (ast.For, ast.While)):
+                    lst = guard_form(loop_body_form(lst))
+                setattr(node, fld, lst or [ast.Pass()])
         if isinstance(node, ast.Try):
             for h in node.handlers:
                 h.body = guard_form(h.body)
@@ -126,10 +216,38 @@ class Canon(ast.NodeTransformer):
             lc = node.args[0]
             node.args[0] = ast.copy_location(ast.GeneratorExp(elt=lc.elt, generators=lc.generators), lc)
             return node
+        # permutations(x, len(x)) is permutations(x);  pow(a, b) is a ** b
+        fq = ast.unparse(node.func)
+        if fq in ("permutations", "it.permutations", "itertools.permutations") and len(node.args) == 2 and not node.keywords \
+                and isinstance(node.args[1], ast.Call) and ast.unparse(node.args[1].func) == "len" and len(node.args[1].args) == 1 \
+                and ast.dump(node.args[1].args[0]) == ast.dump(node.args[0]):
+            node.args = [node.args[0]]
+            return node
+        if fn == "pow" and len(node.args) == 2 and not node.keywords:
+            return ast.copy_location(ast.BinOp(left=node.args[0], op=ast.Pow(), right=node.args[1]), node)
+        # L.pop(-1) is L.pop()
+        if isinstance(node.func, ast.Attribute) and node.func.attr == "pop" and isinstance(node.func.value, ast.Name) and len(node.args) == 1 and not node.keywords \
+                and isinstance(node.args[0], ast.UnaryOp) and isinstance(node.args[0].op, ast.USub) and isinstance(node.args[0].operand, ast.Constant) and node.args[0].operand.value == 1:
+            node.args = []
+            return node
+        if isinstance(node.func, ast.Attribute) and node.func.attr == "pop" and isinstance(node.func.value, ast.Name) and len(node.args) == 1 and not node.keywords \
+                and isinstance(node.args[0], ast.Constant) and node.args[0].value == -1:
+            node.args = []
+            return node
         # empty containers
         if fn in ("tuple", "list", "dict") and not node.args and not node.keywords:
             lit = {"tuple": ast.Tuple(elts=[], ctx=ast.Load()), "list": ast.List(elts=[], ctx=ast.Load()), "dict": ast.Dict(keys=[], values=[])}[fn]
             return ast.copy_location(lit, node)
+        return node
+
+    def visit_ListComp(self, node):
+        # [x for _ in range(n)] with x a name / constant not depending on the loop is [x] * n
+        self.generic_visit(node)
+        if len(node.generators) == 1 and not node.generators[0].ifs and isinstance(node.generators[0].target, ast.Name) and isinstance(node.elt, (ast.Name, ast.Constant)) \
+                and not (isinstance(node.elt, ast.Name) and node.elt.id == node.generators[0].target.id):
+            it = node.generators[0].iter
+            if isinstance(it, ast.Call) and ast.unparse(it.func) == "range" and len(it.args) == 1 and not it.keywords:
+                return ast.copy_location(ast.BinOp(left=ast.List(elts=[node.elt], ctx=ast.Load()), op=ast.Mult(), right=it.args[0]), node)
         return node
 
     def visit_Assign(self, node):
@@ -143,6 +261,14 @@ class Canon(ast.NodeTransformer):
             return self.visit_If(ast.copy_location(ast.If(test=ie.test, body=[a], orelse=[b]), node), descend=False)
         return node
 
+    def visit_Expr(self, node):
+        # L.extend(X) as a statement is L += X (lists; a local name as receiver)
+        self.generic_visit(node)
+        v = node.value
+        if isinstance(v, ast.Call) and isinstance(v.func, ast.Attribute) and v.func.attr == "extend" and isinstance(v.func.value, ast.Name) and len(v.args) == 1 and not v.keywords:
+            return ast.copy_location(ast.AugAssign(target=ast.Name(id=v.func.value.id, ctx=ast.Store()), op=ast.Add(), value=v.args[0]), node)
+        return node
+
     def visit_Return(self, node):
         self.generic_visit(node)
         if isinstance(node.value, ast.IfExp):
@@ -152,9 +278,25 @@ class Canon(ast.NodeTransformer):
             return self.visit_If(ast.copy_location(ast.If(test=ie.test, body=[a], orelse=[b]), node), descend=False)
         return node
 
+    def visit_While(self, node):
+        self.generic_visit(node)
+        node.test = truth_form(node.test)
+        return node
+
+    def visit_IfExp(self, node):
+        self.generic_visit(node)
+        node.test = truth_form(node.test)
+        return node
+
+    def visit_comprehension(self, node):
+        self.generic_visit(node)
+        node.ifs = [truth_form(t) for t in node.ifs]
+        return node
+
     def visit_If(self, node, descend=True):
         if descend:
             self.generic_visit(node)
+        node.test = truth_form(node.test)
         plain_else = node.orelse and not (len(node.orelse) == 1 and isinstance(node.orelse[0], ast.If))
         if isinstance(node.test, ast.UnaryOp) and isinstance(node.test.op, ast.Not) and plain_else:
             node.test, node.body, node.orelse = node.test.operand, node.orelse, node.body
